@@ -7,6 +7,10 @@ package cluster
 // the named ones.
 
 import (
+	"context"
+
+	lifecycle "github.com/boz/go-lifecycle"
+
 	dtypes "github.com/ovrclk/akash/x/deployment/types"
 )
 
@@ -89,4 +93,30 @@ func Harness_C14_hostnames() {
 			verif_Assert(held(n) == pre[n], "C14 a reservation touches only the requested hostnames")
 		}
 	}
+}
+
+// The client-side wrappers: what ReserveHostnames obtained for a deployment, ReleaseHostnames gives
+// back - whatever the spelling of the names in the manifest (hostnames are case-insensitive).
+func Harness_C14_hostnames_release() {
+	names := [][]string{{"shop.example.com"}, {"Shop.Example.COM"}, {"a.example.com", "B.Example.com"}}[verif_Choice("names", 3)]
+	d1 := dtypes.DeploymentID{Owner: verif_Addr(0), DSeq: 1}
+	d2 := dtypes.DeploymentID{Owner: verif_Addr(0), DSeq: 2}
+	var hs *hostnameService
+	if verif_Symbolic() {
+		hs = &hostnameService{inUse: map[string]dtypes.DeploymentID{}, requests: make(chan reserveRequest), releases: make(chan []string), lc: lifecycle.New()}
+		// the service loop: one request or release at a time
+		verif_EnvSinkFn(hs.requests, "request", func(v interface{}) { hs.doRequest(v.(reserveRequest)) })
+		verif_EnvSinkFn(hs.releases, "release", func(v interface{}) { hs.doRelease(v.([]string)) })
+	} else {
+		ctx, cancel := context.WithCancel(context.Background())
+		defer cancel()
+		hs = newHostnameService(ctx, Config{})
+	}
+	err := <-hs.ReserveHostnames(names, d1)
+	verif_Assert(err == nil, "C14 harness: free hostnames are granted")
+	hs.ReleaseHostnames(names)
+	// another deployment asks for the same names (the loop serves requests after the release)
+	err = <-hs.ReserveHostnames(names, d2)
+	verif_Reach("released-and-retaken")
+	verif_Assert(err == nil, "C14 the lease's hostnames are released: another deployment can take them afterwards")
 }
